@@ -455,7 +455,7 @@ class C15(Check):
 class CbSource(ScheduleSource):
     def __init__(self, rec: List[Any], spec: Dict[str, Any]) -> None:
         self.rec = rec
-        self.spec = spec
+        self.spec = dict(spec)
         if spec.get("pre_async"):
             self.pre_send = self._apre  # type: ignore[method-assign]
         if spec.get("post_async"):
@@ -464,15 +464,21 @@ class CbSource(ScheduleSource):
     async def get_schedules(self) -> List[ScheduledTask]:
         return []
 
+    def _cancel_now(self) -> bool:
+        seq = self.spec.get("_cancel_seq")
+        if seq:
+            return bool(seq.pop(0))
+        return bool(self.spec.get("cancel"))
+
     def pre_send(self, task: ScheduledTask) -> None:  # type: ignore[override]
         self.rec.append(("pre_send", task.schedule_id))
-        if self.spec.get("cancel"):
+        if self._cancel_now():
             raise ScheduledTaskCancelledError
 
     async def _apre(self, task: ScheduledTask) -> None:
         self.rec.append(("pre_send", task.schedule_id))
         await asyncio.sleep(0)
-        if self.spec.get("cancel"):
+        if self._cancel_now():
             raise ScheduledTaskCancelledError
 
     def post_send(self, task: ScheduledTask) -> None:  # type: ignore[override]
@@ -517,6 +523,7 @@ class InstSource(ScheduleSource):
 
     def __init__(self, rec: List[Any], spec: Dict[str, Any]) -> None:
         helper = CbSource(rec, spec)
+        self.spec = helper.spec
         self.pre_send = helper.pre_send  # type: ignore[method-assign]
         self.post_send = helper.post_send  # type: ignore[method-assign]
 
@@ -546,6 +553,10 @@ def gen_c16a(rng: random.Random) -> Dict[str, Any]:
             "labels": labels, "cancel": rng.random() < 0.3, "pre_async": rng.random() < 0.5,
             "post_async": rng.random() < 0.5, "kind": rng.choice(["cron", "time"]),
             "inst_hooks": rng.random() < 0.2, "delegate": rng.random() < 0.2,
+            # the scheduled task name may be a registered task with declared labels (own broker), or a shared task
+            "registered": rng.choice([None, None, "own", "shared"]),
+            # the same schedule fired again later; pre_send's decision may differ per firing (pause / resume)
+            "refire_cancel": [rng.random() < 0.5 for _ in range(rng.choice([0, 0, 1, 2, 3]))],
             "delegate_wrap": rng.choice(["coroutine", "future", "awaitable"]),
             # further schedules fired on the same scheduler instance afterwards (state must not carry over)
             "more": [{"sid": f"sch-more-{j}", "task_name": rng.choice(["mod:task", "t", "other"]),
@@ -564,6 +575,23 @@ def run_c16a(spec: Dict[str, Any]) -> "tuple[List[Violation], Any]":
     task = ScheduledTask(task_name=spec["task_name"], labels=copy.deepcopy(labels), args=copy.deepcopy(spec["args"]),
                          kwargs=copy.deepcopy(spec["kwargs"]), schedule_id=spec["sid"], **kw)
     sch = TaskiqScheduler(broker, [src])  # type: ignore[list-item]
+    other = PlainBroker()
+    cleanup_global: List[str] = []
+    if spec.get("registered") == "own":
+        fn0 = lambda: None  # noqa: E731
+        fn0.__name__ = "sched_target"
+        fn0.__module__ = "mon.sched_loop"
+        broker.register_task(fn0, task_name=spec["task_name"], decl=1, queue="slow")
+    elif spec.get("registered") == "shared":
+        from taskiq.brokers.shared_broker import AsyncSharedBroker
+
+        shared = AsyncSharedBroker()
+        shared.default_broker(other)
+        fn1 = lambda: None  # noqa: E731
+        fn1.__name__ = "sched_target_shared"
+        fn1.__module__ = "mon.sched_loop"
+        shared.register_task(fn1, task_name=spec["task_name"], decl=2)
+        cleanup_global.append(spec["task_name"])
 
     async def main(loop: Any) -> None:
         await sch.on_ready(src, task)
@@ -573,6 +601,13 @@ def run_c16a(spec: Dict[str, Any]) -> "tuple[List[Violation], Any]":
     except BaseException as exc:  # noqa: BLE001
         v.append(Violation("on-ready-raised", f"on_ready raised {exc!r}"))
         return v, rec
+    finally:
+        from taskiq.abc.broker import AsyncBroker as _AB
+
+        for nm in cleanup_global:
+            _AB.global_task_registry.pop(nm, None)
+    if other.sent:
+        v.append(Violation("sent-to-wrong-broker", f"{len(other.sent)} message(s) went to a broker other than the scheduler's"))
     sid = spec["sid"]
     want = [("pre_send", sid)] if spec["cancel"] else [("pre_send", sid), ("kick", sid), ("post_send", sid)]
     if rec != want:
@@ -600,6 +635,27 @@ def run_c16a(spec: Dict[str, Any]) -> "tuple[List[Violation], Any]":
         v.append(Violation("kick-count", f"{len(broker.sent)} messages sent for one firing"))
     if spec["cancel"] and broker.sent:
         v.append(Violation("sent-after-cancel", "message sent although pre_send cancelled"))
+    # the same schedule fires again (same schedule_id): pre_send is consulted every time
+    for cancel_again in spec.get("refire_cancel", []):
+        src_spec = src.spec if hasattr(src, "spec") else getattr(getattr(src, "inner", None), "spec", None)
+        if src_spec is None:
+            break
+        src_spec["_cancel_seq"] = [cancel_again]
+        n_rec, n_sent = len(rec), len(broker.sent)
+
+        async def main3(loop: Any) -> None:
+            await sch.on_ready(src, task)
+
+        try:
+            run_virtual(main3)
+        except BaseException as exc:  # noqa: BLE001
+            v.append(Violation("on-ready-raised", f"re-firing raised {exc!r}"))
+            break
+        got3 = rec[n_rec:]
+        want3 = [("pre_send", sid)] if cancel_again else [("pre_send", sid), ("kick", sid), ("post_send", sid)]
+        if got3 != want3 or (len(broker.sent) - n_sent) != (0 if cancel_again else 1):
+            v.append(Violation("callback-sequence", f"re-firing of {sid} (cancel={cancel_again}, earlier cancel={spec['cancel']}): observed {got3}, expected {want3}"))
+            break
     # further firings on the same scheduler / source: each message carries exactly its own schedule's payload
     for extra in spec.get("more", []):
         if spec["cancel"]:
@@ -657,7 +713,7 @@ def gen_c16b(rng: random.Random) -> Dict[str, Any]:
                 e["labels"] = {"el": "v"}
             entries.append(e)
         tasks.append({"name": f"lt{ti}", "where": rng.choice(["own", "own", "own", "foreign", "shared"]), "entries": entries,
-                      "extra_labels": rng.choice([{}, {"x": 1}])})
+                      "extra_labels": rng.choice([{}, {"x": 1}]), "shadowed": rng.random() < 0.2})
     nfire = rng.randint(0, 6)
     return {"mode": "label_source", "tasks": tasks, "fire_seed": rng.randint(0, 10 ** 9), "nfire": nfire,
             # relist: list again before every firing; otherwise fire several schedules of one listing (what the
@@ -704,6 +760,13 @@ def run_c16b(spec: Dict[str, Any]) -> "tuple[List[Violation], Any]":
         b = {"own": broker, "foreign": foreign, "shared": shared}[t["where"]]
         b.register_task(fn, task_name=t["name"], schedule=sched, **t["extra_labels"])
         if t["where"] == "shared":
+            registered_global.append(t["name"])
+        if t["where"] == "own" and t.get("shadowed"):
+            # a shared (global-registry) task with the same name: the broker's own task has priority
+            fn2 = lambda: None  # noqa: E731
+            fn2.__name__ = t["name"] + "_shared"
+            fn2.__module__ = "mon.sched_loop"
+            shared.register_task(fn2, task_name=t["name"], schedule=[{"cron": "*/9 * * * *", "args": ["shadow"]}])
             registered_global.append(t["name"])
         if t["where"] == "own":
             declared[t["name"]] = sched
